@@ -151,7 +151,10 @@ class TruthTableModel(FunctionModel['TruthTable']):
         """
         _table_cp = copy.deepcopy(self._table)
         for (input_value, output_idx), output_value in definition.items():
-            _table_cp[output_idx][input_to_canonical_index(input_value)] = output_value
+            input_idx = input_to_canonical_index(input_value)
+            # only ambiguous values are defined, values given by the model stay.
+            if _table_cp[output_idx][input_idx] == DontCare:
+                _table_cp[output_idx][input_idx] = output_value
 
         return TruthTable(
             table=tp.cast(RawTruthTable, _table_cp),
